@@ -135,8 +135,11 @@ CLAIMED = {
             "of the regularizers + differential correspondence + numpy oracle of the documented formulas",
             "Theorems (Props/C13.lean), all shapes/units/amounts/kernels: lattice Laplacian/torsion (transpose, reshape, slices) "
             "equal the documented sums; PWL Laplacian/Hessian/wrinkle equal the l1/l2 norms of 1st/2nd/3rd differences incl. cyclic "
-            "wrap-around; non-negativity, linearity in amounts, all vanishing sets.",
-            "4/C13", "the per-unit `sum over units` form is checked by the driver on every case, not proved. "),
+            "wrap-around; non-negativity, linearity in amounts, all vanishing sets; per-unit form for every units >= 1 "
+            "(laplacian_per_unit, torsion_per_unit, pwl_*_per_unit): the multi-unit regularizer is the sum over units of the "
+            "single-unit regularizer of each unit's slice / column.",
+            "4/C13", "the per-unit `sum over units` form is proved (amounts with no entry on the units axis: scalars, lists of one "
+            "entry per lattice dimension) and additionally evaluated by the driver on every case. "),
     "C17": ("Lean 4 theorems on executable models of _get_rtl_structure / random ensemble / pair cover / Crystals (randomness as "
             "explicit permutations) + differential correspondence with replayed permutations + oracle",
             "Theorems (Props/C17.lean), all sizes and ALL permutations/draws: RTL exact rank, every input used, usage counts differ "
